@@ -64,6 +64,12 @@ def formula_case(p):
         return dict(what='random Fourier features differ from the documented formula', max_abs_err=float(np.max(np.abs(Z - want))))
     if p['method'] == 'weight_only' and not np.allclose(np.sum(Z**2, axis=1), 1.0, atol=1e-12):
         return dict(what='weight_only feature vector does not have unit norm', norms=np.sum(Z**2, axis=1)[:3].tolist())
+    # whole-number points given as an integer-typed array: same features as the same numbers given as floats
+    Xw = np.round(X)
+    Zi = ka.transform(Xw.astype(np.int64)); Zf = ka.transform(Xw)
+    if Zi.shape != Zf.shape or not np.allclose(Zi, Zf, rtol=1e-12, atol=1e-14):
+        return dict(what='features depend on the dtype of the data (integer-typed points give other features than the same '
+                         'numbers as floats)', max_abs_diff=float(np.max(np.abs(Zi - Zf))) if Zi.shape == Zf.shape else None)
     return None
 
 
@@ -136,7 +142,7 @@ def gen_params(rng, tier):
         out.append(dict(test='formula', kernel=kernels[i % 3], method=['weight_offset', 'weight_only'][(i // 3) % 2],
                         seedtype=['int', 'state'][(i // 6) % 2], rs=int(rng.integers(0, 10000)),
                         nf=int(rng.integers(1, 6)), D=int(rng.choice([1, 2, 7, 40])), rows=int(rng.integers(1, 6)),
-                        shape=float(rng.choice([0.2, 0.5, 1.0, 2.0, 3.0])), seed=int(rng.integers(1 << 30))))
+                        shape=[0.2, 0.5, 1.0, 2.0, 3.0, 1, 2][i % 7], seed=int(rng.integers(1 << 30))))      # float and int shapes
         if i % 3 == 2:
             me = out[-1]
             out[-1]['history'] = dict(kernel=kernels[int(rng.integers(3))],
